@@ -385,6 +385,61 @@ def map_cfg(draw):
     return cfg
 
 
+# ------------------------------------------------------------------------------------------------
+# environment faults while the failure is being recorded: ErrorSnapshot looks the local IP address up with a UDP
+# "connect" to a public address, which pipefunc documents as best effort ("unknown" on any failure).  On hosts
+# without a route / resolver that connect raises; it must never replace the user's exception.
+NET_FAULTS = ["none", "none", "none", "unreachable", "gaierror", "timeout", "permission"]
+
+
+class _net_fault:
+    def __init__(self, kind: str) -> None:
+        self.kind = kind
+
+    def __enter__(self):
+        import socket
+
+        self._orig = socket.socket
+        if self.kind == "none":
+            return self
+        kind = self.kind
+
+        class FaultySocket(self._orig):  # type: ignore[name-defined,misc]
+            def connect(self, address):
+                if self.family == socket.AF_INET and isinstance(address, tuple) and not str(address[0]).startswith("127."):
+                    if kind == "unreachable":
+                        raise OSError(101, "Network is unreachable")
+                    if kind == "gaierror":
+                        raise socket.gaierror(-3, "Temporary failure in name resolution")
+                    if kind == "timeout":
+                        raise TimeoutError("timed out")
+                    raise PermissionError(13, "Permission denied")
+                return super().connect(address)
+
+        socket.socket = FaultySocket  # type: ignore[misc]
+        return self
+
+    def __exit__(self, *a):
+        import socket
+
+        socket.socket = self._orig  # type: ignore[misc]
+        return False
+
+
+def _with_env(body):
+    def wrapped(data) -> Outcome:
+        kind = NET_FAULTS[(data["pick"] // 977) % len(NET_FAULTS)]
+        with _net_fault(kind):
+            out = body(data)
+        out.labels.append(f"net-fault:{kind}")
+        if kind != "none":
+            for f in out.failures:
+                f.bucket = f"{f.bucket}[net-fault]"
+        return out
+
+    return wrapped
+
+
 def campaigns(tier):
     dag = st.fixed_dictionaries(
         {
@@ -403,8 +458,8 @@ def campaigns(tier):
         }
     )
     return [
-        Campaign("dag", body_dag, dag, quick=1500, thorough=30000, describe="DagPrograms x failing function x exception x call style"),
-        Campaign("map", body_map, mapc, quick=500, thorough=8000, describe="MapPrograms x failing call x exception x execution mode"),
+        Campaign("dag", _with_env(body_dag), dag, quick=1500, thorough=30000, describe="DagPrograms x failing function x exception x call style"),
+        Campaign("map", _with_env(body_map), mapc, quick=500, thorough=8000, describe="MapPrograms x failing call x exception x execution mode"),
     ]
 
 
